@@ -69,7 +69,7 @@ func groupBySQLScenario(r *Run, mode string) {
 		key = "k, t"
 	}
 	sql := fmt.Sprintf("SELECT %s, COUNT(v) AS c, SUM(v) AS s, MIN(v) AS m FROM sim.s s GROUP BY %s%s", key, key, cfg.sql())
-	attrs := map[string]string{"trigger": cfg.String(), "by_time": fmt.Sprint(byTime)}
+	attrs := map[string]string{"trigger": cfg.Kinds(), "by_time": fmt.Sprint(byTime)}
 	if noClause {
 		attrs["trigger"] = "none"
 	}
@@ -84,10 +84,13 @@ func groupBySQLScenario(r *Run, mode string) {
 	if watermarked {
 		timeField = 1
 	}
+	sourceEnded := false
 	tables := map[string]*SimTable{"s": {
 		Fields:    []physical.SchemaField{{Name: "k", Type: octosql.Int}, {Name: "t", Type: octosql.Time}, {Name: "v", Type: intOrNull}},
 		TimeField: timeField, NoRetractions: false,
-		Source: func() execution.Node { return &ScriptSource{Name: "S", Msgs: script} },
+		Source: func() execution.Node {
+			return &ScriptSource{Name: "S", Msgs: script, OnEOS: func() { sourceEnded = true }}
+		},
 	}}
 	planned, err := PlanSQL(bubbleCtx(), sql, tables, optimize)
 	if err != nil {
@@ -160,8 +163,10 @@ func groupBySQLScenario(r *Run, mode string) {
 		}
 		running.Add(rec.Values, d)
 		if mode == "C18" && !rec.EventTime.IsZero() && !lastWM.IsZero() && !rec.EventTime.After(lastWM) {
-			a := cloneAttrs(attrs)
-			a["node"] = "group_by_sql"
+			a := map[string]string{"node": "group_by_sql", "trigger": attrs["trigger"]}
+			if sourceEnded {
+				a["cause"] = "group_by_end_of_stream_emission"
+			}
 			r.Violate("C18", "late_record", a, "record %s emitted with event time %s at or below already emitted watermark %s",
 				RowString(rec.Values), Sec(rec.EventTime), Sec(lastWM))
 		}
@@ -171,8 +176,7 @@ func groupBySQLScenario(r *Run, mode string) {
 		r.Log("  out wm(%s)", Sec(msg.Watermark))
 		nOut++
 		if mode == "C18" && msg.Watermark.Before(lastWM) {
-			a := cloneAttrs(attrs)
-			a["node"] = "group_by_sql"
+			a := map[string]string{"node": "group_by_sql", "trigger": attrs["trigger"]}
 			r.Violate("C18", "watermark_regressed", a, "watermark %s emitted after %s", Sec(msg.Watermark), Sec(lastWM))
 		}
 		if msg.Watermark.After(lastWM) {
